@@ -43,6 +43,41 @@ def back_edges(fn):
     return out
 
 
+def loop_bodies(fn):
+    """{header: set of block labels of the natural loop}"""
+    preds = {}
+    for b in fn.order:
+        for t in successors(fn, b):
+            preds.setdefault(t, []).append(b)
+    out = {}
+    for latch, h in back_edges(fn):
+        body = out.setdefault(h, {h})
+        stack = [latch]
+        while stack:
+            n = stack.pop()
+            if n in body:
+                continue
+            body.add(n)
+            stack.extend(preds.get(n, []))
+    return out
+
+
+def find_header(fn, calls_substring):
+    """the outermost loop whose body contains a call to a function whose name contains the substring"""
+    best = None
+    for h, body in loop_bodies(fn).items():
+        hit = False
+        for b in body:
+            for ins in fn.blocks[b]:
+                if ins.op == "call" and hasattr(ins.extra, "name") and calls_substring in ins.extra.name:
+                    hit = True
+        if hit and (best is None or len(body) > len(best[1])):
+            best = (h, body)
+    if best is None:
+        raise ExecError("spec", "no loop of %s calls *%s*" % (fn.name, calls_substring))
+    return best[0]
+
+
 def header_phis(fn, header):
     return [ins for ins in fn.blocks[header] if ins.op == "phi"]
 
